@@ -1,53 +1,75 @@
-(* Conc/LockOrder.v — MODEL for C35: locks, wait-for semantics, acquisition patterns.
-   A lock is a number.  A thread state is the list of locks it holds and the lock it is
-   blocked on (if any).  Holding is a relation: several threads may hold the same lock
-   (RwLock read guards); only the gate lock is assumed exclusive (it is a Mutex).
-   An acquisition pattern (H, l) says: some thread requested l while holding exactly the
-   set H.  The harness records the patterns of the real code (verif::acquire events). *)
+(* Conc/LockOrder.v — MODEL for C35: locks with modes, wait-for semantics, acquisition patterns.
+   A lock is a number; it is requested / held in a mode:
+     MR   shared (RwLock::read)          MW   exclusive (Mutex::lock, RwLock::write)
+     MTry non-blocking attempt (File::try_lock): may be held, is never waited for.
+   A thread state is the list of (lock, mode) it holds and the request it is blocked on.
+   Blocking (std::sync, writer-preferring RwLock):
+     - a request is blocked by a thread HOLDING the lock in a conflicting mode (readers do not
+       block readers);
+     - a read request is also blocked by a thread that WAITS for the write lock (queued writer):
+       this is what makes a second read by a thread that already holds a read guard deadlock.
+   An acquisition pattern (H, (l, m)): some thread requested l in mode m while holding exactly H.
+   The harness records the patterns of the real code (verif::acquire events). *)
 From Coq Require Import List Arith Bool.
 Import ListNotations.
 
 Definition lock := nat.
-Definition pattern := (list lock * lock)%type.
+Inductive mode := MR | MW | MTry.
+Definition req := (lock * mode)%type.
+Definition pattern := (list req * req)%type.
 
-Record tstate := { held : list lock; want : option lock }.
+Record tstate := { held : list req; want : option req }.
 Definition lstate := nat -> tstate.
 
-(* wait-for semantics: thread t is blocked by t' when t wants a lock that t' holds.
-   A deadlock is a non-empty finite set of threads each of which is blocked by a member of the
-   set (every cycle of the wait-for graph is such a set, and every such set contains a cycle).
-   A waiting writer that blocks later readers of an RwLock is itself blocked by a holder, so the
-   holder-based relation covers writer-preferring RwLocks as long as no thread re-acquires a lock
-   it holds (patterns with l in H are rejected by `check`). *)
+Definition conflicts (m m' : mode) : bool :=
+  match m, m' with
+  | MTry, _ => false
+  | MR, MR => false
+  | _, _ => true
+  end.
+
+Definition mode_eqb (a b : mode) : bool :=
+  match a, b with MR, MR | MW, MW | MTry, MTry => true | _, _ => false end.
+
+Definition blocked_by (st : lstate) (t t' : nat) : Prop :=
+  exists l m, want (st t) = Some (l, m) /\
+    ((exists m', In (l, m') (held (st t')) /\ conflicts m m' = true) \/
+     (m = MR /\ want (st t') = Some (l, MW))).
+
+(* a deadlock: a non-empty finite set of threads each of which is blocked by a member of the set *)
 Definition deadlocked (st : lstate) : Prop :=
-  exists S : list nat, S <> [] /\
-    forall t, In t S -> exists l t', want (st t) = Some l /\ In t' S /\ In l (held (st t')).
+  exists S : list nat, S <> [] /\ forall t, In t S -> exists t', In t' S /\ blocked_by st t t'.
 
-Definition memb (l : lock) (H : list lock) : bool := existsb (Nat.eqb l) H.
+Definition holds (l : lock) (H : list req) : bool := existsb (fun x => Nat.eqb (fst x) l) H.
 
-(* every blocked thread is blocked in an observed pattern (same held set) *)
 Definition conforms (pats : list pattern) (st : lstate) : Prop :=
-  forall t l, want (st t) = Some l ->
-    exists H, In (H, l) pats /\ forall h, In h (held (st t)) <-> In h H.
+  forall t r, want (st t) = Some r ->
+    exists H, In (H, r) pats /\ forall x, In x (held (st t)) <-> In x H.
 
 Definition gate_exclusive (g : lock) (st : lstate) : Prop :=
-  forall t t', In g (held (st t)) -> In g (held (st t')) -> t = t'.
+  forall t t' m m', In (g, m) (held (st t)) -> In (g, m') (held (st t')) -> t = t'.
 
-(* l is only ever held together with the gate *)
-Definition leaf (pats : list pattern) (g l : lock) : bool :=
-  forallb (fun p => implb (memb l (fst p)) (memb g (fst p))) pats.
+(* l is only ever held together with the gate; for a read request additionally every write request
+   for l is made under the gate (so that a queued writer is a gate holder too) *)
+Definition leaf (pats : list pattern) (g l : lock) (m : mode) : bool :=
+  forallb (fun p => implb (holds l (fst p)) (holds g (fst p))) pats &&
+  match m with
+  | MR => forallb (fun p => implb (Nat.eqb (fst (snd p)) l && mode_eqb (snd (snd p)) MW) (holds g (fst p))) pats
+  | _ => true
+  end.
 
-(* the certificate check: every pattern is non-re-entrant and either rank-increasing w.r.t. every
-   lock held, or taken under the gate for a lock that is only held under the gate *)
+(* the certificate check: every blocking pattern is non-re-entrant and either rank-increasing w.r.t.
+   every lock held, or made under the gate for a leaf lock *)
 Definition check (pats : list pattern) (rank : lock -> nat) (g : lock) : bool :=
   forallb (fun p =>
-    negb (memb (snd p) (fst p)) &&
-    (forallb (fun h => Nat.ltb (rank h) (rank (snd p))) (fst p) || (memb g (fst p) && leaf pats g (snd p)))) pats.
+    let l := fst (snd p) in let m := snd (snd p) in
+    mode_eqb m MTry ||
+    (negb (holds l (fst p)) &&
+     (forallb (fun h => Nat.ltb (rank (fst h)) (rank l)) (fst p) || (holds g (fst p) && leaf pats g l m)))) pats.
 
 Definition rank_increasing (rank : lock -> nat) (st : lstate) : Prop :=
-  forall t l, want (st t) = Some l -> forall h, In h (held (st t)) -> rank h < rank l.
+  forall t l m, want (st t) = Some (l, m) -> forall h mh, In (h, mh) (held (st t)) -> rank h < rank l.
 
-(* rank function from an association list (default 0) *)
 Fixpoint rank_of (tbl : list (lock * nat)) (l : lock) : nat :=
   match tbl with
   | [] => 0
